@@ -93,11 +93,13 @@ def run(ctx):
     # 2. vectors: a seeded sample of the full space, stratified by candidate class and list length
     want = 3000 if quick else 100000
     # the sample is cut by Valid(): oversample (measured yield is about 0.6)
-    res = vlib.tlc_model(ctx, "Candidate", "Candidate_Vec", workers=1, timeout=600,
-                         extra_env={"VERIF_NVEC": int(want * 1.75)})
+    #    (run_tlc, not tlc_model: enumerating the sample is not a model-checking result and is not
+    #    counted in the evidence's states)
+    res = vlib.run_tlc(ctx, "Candidate", "Candidate_Vec", workers=1, timeout=600,
+                       extra_env={"VERIF_NVEC": int(want * 1.75)})
     vecs = [v[0] for v in res.tag("VERIF_VEC")]
-    if not vecs:
-        raise vlib.NoVerdict("no vectors emitted")
+    if res.rc != 0 or not vecs:
+        raise vlib.NoVerdict("vector sampling failed (rc=%s):\n%s" % (res.rc, res.error))
     ctx.rng.shuffle(vecs)
     vecs = vecs[:want]
     nsample = len(vecs)
@@ -115,7 +117,7 @@ def run(ctx):
     ctx.log("replayed")
 
     # 4. TLC judges what pion did
-    ctx.viol = _parallel_trace(ctx, "Candidate_Trace", "Candidate_Trace", trace, 1 if quick else 12, 4000)
+    ctx.viol = _parallel_trace(ctx, "Candidate_Trace", "Candidate_Trace", trace, 3 if quick else 8, 5000)
     lines = vlib.read_ndjson(trace)
     cands = [l for l in lines if l.get("ev") == "cand"]
     unrep = [l for l in lines if l.get("ev") == "unrep"]
